@@ -6,6 +6,7 @@ import L4.Drv.LB
 import L4.Drv.PP
 import L4.Drv.Tls
 import L4.Drv.Socks5
+import L4.Drv.Throttle
 open L4 L4.Drv
 
 def dispatch (line : String) : String :=
@@ -18,6 +19,7 @@ def dispatch (line : String) : String :=
   | "pp" :: rest => (doPP.run rest).1
   | "hello" :: rest => (doHello.run rest).1
   | "socks5" :: rest => (doSocks5.run rest).1
+  | "throttle" :: rest => (doThrottle.run rest).1
   | _ => "bad-op"
 
 partial def loop (h : IO.FS.Stream) (out : IO.FS.Stream) : IO Unit := do
